@@ -4,9 +4,11 @@ import Arimaa.Impl.Engine
 /-!
 Agreement of the hand-written model with the expression-by-expression translation of the
 straight-line bit helpers of engine.rs (`Gen/BitFns.lean`, regenerated from the source on every
-run).  The refinement proofs are about the hand-written functions; these theorems tie those
-functions to what the code says now: a changed mask, shift, operator or operand in one of the
-seventeen helpers breaks the corresponding theorem here.
+run).  The refinement proofs are about the hand-written functions; the agreement theorems
+(`Lemmas/GenAgreeFrozen`, `GenAgreeMove`, `GenAgreeCapture`, `GenAgreeResult`: one file per family, imported
+by the lemma file about that family, so that a property's proof closure contains exactly the agreements its
+model functions rest on) tie those functions to what the code says now: a changed mask, shift, operator or
+operand in one of the seventeen helpers breaks the corresponding theorem.  This file holds the shared tactic.
 -/
 namespace Arimaa
 open Gen GameState
@@ -34,122 +36,5 @@ macro "bitwise_agree" : tactic =>
              apply BitVec.eq_of_getLsbD_eq; intro i hi
              simp only [BitVec.getLsbD_and, BitVec.getLsbD_or, BitVec.getLsbD_xor, BitVec.getLsbD_not]
              grind))
-
-theorem agree_influenced_squares (x : BB) :
-    Gen.Fn.influenced_squares x = influencedSquares x := by
-  first
-    | rfl
-    | (simp only [Gen.Fn.influenced_squares, influencedSquares] <;> first | rfl | ac_rfl)
-    | bitwise_agree
-
-theorem agree_supported_pieces (x : BB) :
-    Gen.Fn.supported_pieces x = supportedPieces x := by
-  first
-    | rfl
-    | (simp only [Gen.Fn.supported_pieces, supportedPieces] <;> first | rfl | ac_rfl)
-    | bitwise_agree
-
-theorem agree_both_player_supported_pieces (b : Board) :
-    Gen.Fn.both_player_supported_pieces b = bothPlayerSupportedPieces b := by
-  first
-    | rfl
-    | (simp only [Gen.Fn.both_player_supported_pieces, bothPlayerSupportedPieces, agree_supported_pieces] <;> first | rfl | ac_rfl)
-    | bitwise_agree
-
-theorem agree_both_player_unsupported_piece_bits (b : Board) :
-    Gen.Fn.both_player_unsupported_piece_bits b = bothPlayerUnsupportedPieceBits b := by
-  first
-    | rfl
-    | (simp only [Gen.Fn.both_player_unsupported_piece_bits, bothPlayerUnsupportedPieceBits, agree_both_player_supported_pieces] <;> first | rfl | ac_rfl)
-    | bitwise_agree
-
-theorem agree_animal_is_on_trap (b : Board) :
-    Gen.Fn.animal_is_on_trap b = animalIsOnTrap b := by
-  first
-    | rfl
-    | (simp only [Gen.Fn.animal_is_on_trap, animalIsOnTrap] <;> first | rfl | ac_rfl)
-    | bitwise_agree
-
-theorem agree_can_move_in_direction (d : Dir) (b : Board) :
-    Gen.Fn.can_move_in_direction d b = canMoveInDirection d b := by
-  first
-    | rfl
-    | (simp only [Gen.Fn.can_move_in_direction, canMoveInDirection] <;> first | rfl | ac_rfl)
-    | bitwise_agree
-
-theorem agree_shift_piece_in_direction (x src : BB) (d : Dir) :
-    Gen.Fn.shift_piece_in_direction x src d = shiftPieceInDirection x src d := by
-  first
-    | rfl
-    | (simp only [Gen.Fn.shift_piece_in_direction, shiftPieceInDirection] <;> first | rfl | ac_rfl)
-    | bitwise_agree
-
-theorem agree_player_piece_mask (b : Board) (g : Bool) :
-    Gen.Fn.player_piece_mask b g = b.playerPieceMask g := by
-  first
-    | rfl
-    | (simp only [Gen.Fn.player_piece_mask, Board.playerPieceMask] <;> first | rfl | ac_rfl)
-    | bitwise_agree
-
-theorem agree_trapped_piece_bits (b : Board) :
-    Gen.Fn.trapped_piece_bits b = b.trappedPieceBits := by
-  first
-    | rfl
-    | (simp only [Gen.Fn.trapped_piece_bits, Board.trappedPieceBits, agree_animal_is_on_trap, agree_both_player_unsupported_piece_bits] <;> first | rfl | ac_rfl)
-    | bitwise_agree
-
-theorem agree_curr_player_piece_mask (s : GameState) (b : Board) :
-    Gen.Fn.curr_player_piece_mask s.p1Turn b = s.currPlayerPieceMask b := by
-  first
-    | rfl
-    | (simp only [Gen.Fn.curr_player_piece_mask, currPlayerPieceMask] <;> first | rfl | ac_rfl)
-    | bitwise_agree
-
-theorem agree_opponent_piece_mask (s : GameState) (b : Board) :
-    Gen.Fn.opponent_piece_mask s.p1Turn b = s.opponentPieceMask b := by
-  first
-    | rfl
-    | (simp only [Gen.Fn.opponent_piece_mask, opponentPieceMask] <;> first | rfl | ac_rfl)
-    | bitwise_agree
-
-theorem agree_threatened_pieces (g : Bool) (pred prey : BB) (b : Board) :
-    Gen.Fn.threatened_pieces g pred prey b = threatenedPieces pred prey b := by
-  first
-    | rfl
-    | (simp only [Gen.Fn.threatened_pieces, threatenedPieces, agree_influenced_squares] <;> first | rfl | ac_rfl)
-    | bitwise_agree
-
-theorem agree_curr_player_non_frozen_pieces (s : GameState) (b : Board) :
-    Gen.Fn.curr_player_non_frozen_pieces s.p1Turn b = s.currPlayerNonFrozenPieces b := by
-  first
-    | rfl
-    | (simp only [Gen.Fn.curr_player_non_frozen_pieces, currPlayerNonFrozenPieces, agree_opponent_piece_mask, agree_threatened_pieces, agree_supported_pieces] <;> first | rfl | ac_rfl)
-    | bitwise_agree
-
-theorem agree_is_their_piece (s : GameState) (bit : BB) (b : Board) :
-    Gen.Fn.is_their_piece s.p1Turn bit b = s.isTheirPiece bit b := by
-  first
-    | rfl
-    | (simp only [Gen.Fn.is_their_piece, isTheirPiece] <;> first | rfl | ac_rfl)
-    | bitwise_agree
-
-theorem agree_invalid_rabbit_moves (s : GameState) (d : Dir) (b : Board) :
-    Gen.Fn.invalid_rabbit_moves s.p1Turn d b = s.invalidRabbitMoves d b := by
-  unfold Gen.Fn.invalid_rabbit_moves invalidRabbitMoves backwardDirP1 backwardDirP2
-  cases s.p1Turn <;> cases d <;> first | rfl | ac_rfl
-
-theorem agree_rabbit_at_goal (s : GameState) (b : Board) :
-    Gen.Fn.rabbit_at_goal s.p1Turn b = s.rabbitAtGoal b := by
-  first
-    | rfl
-    | (simp only [Gen.Fn.rabbit_at_goal, rabbitAtGoal] <;> first | rfl | ac_rfl)
-    | bitwise_agree
-
-theorem agree_lost_all_rabbits (s : GameState) (b : Board) :
-    Gen.Fn.lost_all_rabbits s.p1Turn b = s.lostAllRabbits b := by
-  first
-    | rfl
-    | (simp only [Gen.Fn.lost_all_rabbits, lostAllRabbits] <;> first | rfl | ac_rfl)
-    | bitwise_agree
 
 end Arimaa
